@@ -1,1 +1,780 @@
 import FluentModel.Parser
+namespace FluentProofs.Parser
+open FluentModel.Syntax
+
+theorem forall_uint8 (P : UInt8 → Prop) (h : ∀ n : Fin 256, P (UInt8.ofNat n.val)) : ∀ b, P b := by
+  intro b
+  have := h ⟨b.toNat, b.toNat_lt⟩
+  simpa using this
+
+theorem ascii_not_cont : ∀ b : UInt8, b < 128 → ((b &&& 0xC0) != 0x80) = true := by
+  apply forall_uint8; decide +kernel
+theorem isAlpha_lt : ∀ b : UInt8, isAlpha b = true → b < 128 := by
+  apply forall_uint8; decide +kernel
+theorem isDigit_lt : ∀ b : UInt8, isDigit b = true → b < 128 := by
+  apply forall_uint8; decide +kernel
+theorem isIdentByte_lt : ∀ b : UInt8, isIdentByte b = true → b < 128 := by
+  apply forall_uint8; decide +kernel
+theorem isHexDigit_lt : ∀ b : UInt8, isHexDigit b = true → b < 128 := by
+  apply forall_uint8; decide +kernel
+
+/-- `i` is a char boundary of `s` (this implies `i ≤ s.size`) -/
+def Bnd (s : Src) (i : Nat) : Prop := isBoundary s i = true
+
+/-- The one UTF-8 fact the parser relies on: the position after an ASCII byte is a char boundary.
+It holds for the bytes of every `String` / Rust `&str`. -/
+def AsciiThenBoundary (s : Src) : Prop :=
+  ∀ i b, s[i]? = some b → b < 128 → isBoundary s (i + 1) = true
+
+theorem get_lt {s : Src} {i : Nat} {b : UInt8} (h : s[i]? = some b) : i < s.size :=
+  (Array.getElem?_eq_some_iff.mp h).1
+
+theorem Bnd.le {s : Src} {i : Nat} (h : Bnd s i) : i ≤ s.size := by
+  unfold Bnd isBoundary at h
+  by_cases h1 : i < s.size
+  · omega
+  · have : s[i]? = none := by simp; omega
+    simp [this] at h; omega
+
+theorem bnd_zero (s : Src) : Bnd s 0 := by simp [Bnd, isBoundary]
+theorem bnd_size (s : Src) : Bnd s s.size := by simp [Bnd, isBoundary]
+
+theorem bnd_of_ascii {s : Src} {i : Nat} {b : UInt8} (h : s[i]? = some b) (hb : b < 128) : Bnd s i := by
+  have := ascii_not_cont b hb
+  simp [Bnd, isBoundary, h, this]
+
+theorem bnd_succ {s : Src} (hs : AsciiThenBoundary s) {i : Nat} {b : UInt8} (h : s[i]? = some b) (hb : b < 128) :
+    Bnd s (i + 1) := hs i b h hb
+
+/-- position `i` holds an ASCII byte -/
+def Asc (s : Src) (i : Nat) : Prop := ∃ b, s[i]? = some b ∧ b < 128
+
+theorem Asc.bnd {s : Src} {i : Nat} (h : Asc s i) : Bnd s i := by
+  obtain ⟨b, h1, h2⟩ := h; exact bnd_of_ascii h1 h2
+theorem Asc.bnd_succ {s : Src} (hs : AsciiThenBoundary s) {i : Nat} (h : Asc s i) : Bnd s (i + 1) := by
+  obtain ⟨b, h1, h2⟩ := h; exact hs i b h1 h2
+theorem Asc.lt {s : Src} {i : Nat} (h : Asc s i) : i < s.size := by
+  obtain ⟨b, h1, _⟩ := h; exact get_lt h1
+
+/-- `q` is `p` or follows an ASCII byte at a position `≥ p` -/
+def After (s : Src) (p q : Nat) : Prop := q = p ∨ (p < q ∧ Asc s (q - 1))
+
+theorem After.bnd {s : Src} (hs : AsciiThenBoundary s) {p q : Nat} (h : After s p q) (hp : Bnd s p) : Bnd s q := by
+  rcases h with rfl | ⟨h1, h2⟩
+  · exact hp
+  · have := h2.bnd_succ hs
+    have e : q - 1 + 1 = q := by omega
+    rwa [e] at this
+
+theorem After.le {s : Src} {p q : Nat} (h : After s p q) : p ≤ q := by
+  rcases h with rfl | ⟨h1, _⟩ <;> omega
+theorem After.le_size {s : Src} {p q : Nat} (h : After s p q) (hp : p ≤ s.size) : q ≤ s.size := by
+  rcases h with rfl | ⟨h1, h2⟩
+  · exact hp
+  · have := h2.lt; omega
+theorem After.refl (s : Src) (p : Nat) : After s p p := Or.inl rfl
+theorem After.trans {s : Src} {p q r : Nat} (h1 : After s p q) (h2 : After s q r) : After s p r := by
+  rcases h2 with rfl | ⟨h3, h4⟩
+  · exact h1
+  · have := h1.le; exact Or.inr ⟨by omega, h4⟩
+theorem After.step {s : Src} {p : Nat} (h : Asc s p) : After s p (p + 1) := Or.inr ⟨by omega, by simpa using h⟩
+
+/-! ### skipBlankInline -/
+
+theorem skipBlankInlineGo_spec (s : Src) (n p : Nat) :
+    After s p (skipBlankInlineGo s n p) ∧ ∀ j, p ≤ j → j < skipBlankInlineGo s n p → s[j]? = some 32 := by
+  induction n generalizing p with
+  | zero => simp only [skipBlankInlineGo]; exact ⟨After.refl _ _, fun j h1 h2 => by omega⟩
+  | succ n ih =>
+    simp only [skipBlankInlineGo]
+    split
+    · rename_i h
+      have h : s[p]? = some 32 := by simpa using h
+      have ⟨i1, i2⟩ := ih (p + 1)
+      refine ⟨(After.step ⟨32, h, by decide⟩).trans i1, ?_⟩
+      intro j h1 h2
+      by_cases hj : j = p
+      · subst hj; exact h
+      · exact i2 j (by omega) h2
+    · simp [After.refl]; intro j h1 h2; omega
+
+theorem skipBlankInline_after (s : Src) (p : Nat) : After s p (skipBlankInline s p) :=
+  (skipBlankInlineGo_spec s _ p).1
+theorem skipBlankInline_spaces (s : Src) (p : Nat) : ∀ j, p ≤ j → j < skipBlankInline s p → s[j]? = some 32 :=
+  (skipBlankInlineGo_spec s _ p).2
+
+/-! ### slices, outcomes -/
+
+/-- a byte range on which Rust's `&str[a..b]` is defined -/
+def VSpan (s : Src) (sp : Span) : Prop := sp.start ≤ sp.stop ∧ Bnd s sp.start ∧ Bnd s sp.stop
+
+theorem slice_ok {s : Src} {a b : Nat} (h : a ≤ b) (ha : Bnd s a) (hb : Bnd s b) : slice s a b = some ⟨a, b⟩ := by
+  have := hb.le
+  unfold Bnd at ha hb
+  simp [slice, ha, hb, h, this]
+
+theorem slice_eq_some {s : Src} {a b : Nat} {sp : Span} (h : slice s a b = some sp) : sp = ⟨a, b⟩ ∧ VSpan s sp := by
+  unfold slice at h
+  split at h
+  · rename_i hc
+    simp at h; subst h
+    exact ⟨rfl, hc.1, hc.2.2.1, hc.2.2.2⟩
+  · simp at h
+
+theorem VSpan.slice {s : Src} {sp : Span} (h : VSpan s sp) : slice s sp.start sp.stop = some sp :=
+  slice_ok h.1 h.2.1 h.2.2
+
+/-- the outcome is `ok`/`err` with the cursor in `[lo, size]`, never `panic`, never `fuel` -/
+def Good {α : Type} (s : Src) (lo : Nat) (r : R α) (Q : α → Nat → Prop) : Prop :=
+  match r with
+  | .ok a q => lo ≤ q ∧ q ≤ s.size ∧ Q a q
+  | .err _ q => lo ≤ q ∧ q ≤ s.size
+  | .panic _ => False
+  | .fuel => False
+
+@[simp] theorem good_ok {α : Type} (s : Src) (lo : Nat) (a : α) (q : Nat) (Q : α → Nat → Prop) :
+    Good s lo (.ok a q) Q ↔ (lo ≤ q ∧ q ≤ s.size ∧ Q a q) := Iff.rfl
+@[simp] theorem good_err {α : Type} (s : Src) (lo : Nat) (e : PErr) (q : Nat) (Q : α → Nat → Prop) :
+    Good s lo (.err e q : R α) Q ↔ (lo ≤ q ∧ q ≤ s.size) := Iff.rfl
+@[simp] theorem good_panic {α : Type} (s : Src) (lo : Nat) (m : String) (Q : α → Nat → Prop) :
+    Good s lo (.panic m : R α) Q ↔ False := Iff.rfl
+@[simp] theorem good_fuel {α : Type} (s : Src) (lo : Nat) (Q : α → Nat → Prop) :
+    Good s lo (.fuel : R α) Q ↔ False := Iff.rfl
+
+theorem Good.mono {α : Type} {s : Src} {lo lo' : Nat} {r : R α} {Q Q' : α → Nat → Prop}
+    (h : Good s lo r Q) (hlo : lo' ≤ lo) (hQ : ∀ a q, lo ≤ q → q ≤ s.size → Q a q → Q' a q) : Good s lo' r Q' := by
+  cases r with
+  | ok a q => simp only [good_ok] at h ⊢; exact ⟨by omega, h.2.1, hQ _ _ h.1 h.2.1 h.2.2⟩
+  | err e q => simp only [good_err] at h ⊢; omega
+  | panic m => exact h
+  | fuel => exact h
+
+/-! ### skipEol, skipBlankBlock, skipBlank -/
+
+theorem skipEol_some {s : Src} {p q : Nat} (h : skipEol s p = some q) :
+    p < q ∧ s[q - 1]? = some 10 ∧ (q = p + 1 ∨ q = p + 2) := by
+  unfold skipEol at h
+  split at h
+  · rename_i h1
+    simp at h; subst h; simpa using h1
+  · split at h <;> simp at h
+    rename_i h1 h2
+    subst h
+    simpa using h2
+  · simp at h
+
+theorem skipEol_after {s : Src} {p q : Nat} (h : skipEol s p = some q) : After s p q := by
+  have ⟨h1, h2, _⟩ := skipEol_some h
+  exact Or.inr ⟨h1, 10, h2, by decide⟩
+
+theorem skipBlankBlockGo_after (s : Src) (n p c : Nat) : After s p (skipBlankBlockGo s n p c).1 := by
+  induction n generalizing p c with
+  | zero => exact After.refl _ _
+  | succ n ih =>
+    simp only [skipBlankBlockGo]
+    split
+    · rename_i p' h
+      exact ((skipBlankInline_after s p).trans (skipEol_after h)).trans (ih p' (c + 1))
+    · exact After.refl _ _
+
+theorem skipBlankBlock_after (s : Src) (p : Nat) : After s p (skipBlankBlock s p).1 :=
+  skipBlankBlockGo_after s _ p 0
+
+theorem skipBlankGo_after (s : Src) (n p : Nat) : After s p (skipBlankGo s n p) := by
+  induction n generalizing p with
+  | zero => exact After.refl _ _
+  | succ n ih =>
+    simp only [skipBlankGo]
+    split
+    · rename_i h; exact (After.step ⟨32, h, by decide⟩).trans (ih _)
+    · rename_i h; exact (After.step ⟨10, h, by decide⟩).trans (ih _)
+    · split
+      · rename_i h h2
+        have h2 : s[p + 1]? = some 10 := by simpa using h2
+        have : After s p (p + 2) := Or.inr ⟨by omega, 10, by simpa using h2, by decide⟩
+        exact this.trans (ih _)
+      · exact After.refl _ _
+    · exact After.refl _ _
+
+theorem skipBlank_after (s : Src) (p : Nat) : After s p (skipBlank s p) := skipBlankGo_after s _ p
+
+/-! ### expectByte, takeByteIf -/
+
+theorem isCurrentByte_iff (s : Src) (p : Nat) (b : UInt8) : isCurrentByte s p b = true ↔ s[p]? = some b := by
+  simp [isCurrentByte]
+
+theorem expectByte_good (s : Src) (p : Nat) (b : UInt8) (hp : p ≤ s.size) :
+    Good s p (expectByte s p b) (fun _ q => q = p + 1 ∧ s[p]? = some b) := by
+  unfold expectByte
+  split
+  · rename_i h
+    have h := (isCurrentByte_iff s p b).mp h
+    have := get_lt h
+    simp [h]; omega
+  · simp [hp]
+
+theorem takeByteIf_cases (s : Src) (p : Nat) (b : UInt8) :
+    (takeByteIf s p b = (p + 1, true) ∧ s[p]? = some b) ∨ (takeByteIf s p b = (p, false) ∧ s[p]? ≠ some b) := by
+  unfold takeByteIf
+  split
+  · rename_i h; exact Or.inl ⟨rfl, (isCurrentByte_iff s p b).mp h⟩
+  · rename_i h; exact Or.inr ⟨rfl, fun h' => h ((isCurrentByte_iff s p b).mpr h')⟩
+
+/-! ### scanWhile, skipDigits, number literals, identifiers -/
+
+theorem scanWhileGo_after (s : Src) (pred : UInt8 → Bool) (hpred : ∀ b, pred b = true → b < 128) (n p : Nat) :
+    After s p (scanWhileGo s pred n p) := by
+  induction n generalizing p with
+  | zero => exact After.refl _ _
+  | succ n ih =>
+    simp only [scanWhileGo]
+    split
+    · split
+      · rename_i b h hb
+        exact (After.step ⟨b, h, hpred b hb⟩).trans (ih _)
+      · exact After.refl _ _
+    · exact After.refl _ _
+
+theorem scanWhile_after (s : Src) (pred : UInt8 → Bool) (hpred : ∀ b, pred b = true → b < 128) (p : Nat) :
+    After s p (scanWhile s pred p) := scanWhileGo_after s pred hpred _ p
+
+theorem skipDigits_good (s : Src) (p : Nat) (hp : p ≤ s.size) :
+    Good s p (skipDigits s p) (fun _ q => p < q ∧ After s p q) := by
+  unfold skipDigits
+  have h := scanWhile_after s isDigit isDigit_lt p
+  have h1 := h.le
+  have h2 := h.le_size hp
+  simp only []
+  split
+  · simp [hp]
+  · rename_i hne
+    have : scanWhile s isDigit p ≠ p := by simpa using hne
+    simp [h, h2]; omega
+
+
+theorem Good.cases {α : Type} {s : Src} {lo : Nat} {r : R α} {Q : α → Nat → Prop} (h : Good s lo r Q) :
+    (∃ a q, r = .ok a q ∧ lo ≤ q ∧ q ≤ s.size ∧ Q a q) ∨ (∃ e q, r = .err e q ∧ lo ≤ q ∧ q ≤ s.size) := by
+  cases r with
+  | ok a q => exact Or.inl ⟨a, q, rfl, h⟩
+  | err e q => exact Or.inr ⟨e, q, rfl, h⟩
+  | panic m => exact h.elim
+  | fuel => exact h.elim
+
+theorem getNumberLiteral_good {s : Src} (hs : AsciiThenBoundary s) (p : Nat) (hp : Asc s p) :
+    Good s p (getNumberLiteral s p) (fun sp q => p < q ∧ sp = ⟨p, q⟩ ∧ VSpan s sp) := by
+  have hps := hp.lt
+  have hb := hp.bnd
+  unfold getNumberLiteral
+  have hA1 : After s p (takeByteIf s p 45).1 := by
+    rcases takeByteIf_cases s p 45 with ⟨h, h'⟩ | ⟨h, _⟩ <;> rw [h]
+    · exact After.step hp
+    · exact After.refl _ _
+  generalize (takeByteIf s p 45) = t at *
+  obtain ⟨p1, d1⟩ := t
+  simp only [] at hA1 ⊢
+  have hp1 := hA1.le_size (by omega)
+  rcases (skipDigits_good s p1 hp1).cases with ⟨_, p2, hr, h1, h2, h3, h4⟩ | ⟨e, q, hr, h1, h2⟩ <;> simp only [hr]
+  · have hA2 := hA1.trans h4
+    rcases takeByteIf_cases s p2 46 with ⟨h, h'⟩ | ⟨h, _⟩ <;> rw [h] <;> simp only []
+    · have hA3 := hA2.trans (After.step ⟨46, h', by decide⟩)
+      have hp3 := hA3.le_size (by omega)
+      rcases (skipDigits_good s (p2+1) hp3).cases with ⟨_, p4, hr, h1', h2', h3', h4'⟩ | ⟨e, q, hr, h1', h2'⟩ <;> simp [hr]
+      · have hA4 := hA3.trans h4'
+        have := hA1.le
+        rw [slice_ok (by omega) hb (hA4.bnd hs hb)]
+        simp
+        refine ⟨by omega, h2', by omega, ?_⟩
+        exact ⟨by simp; omega, hb, hA4.bnd hs hb⟩
+      · have := hA1.le; omega
+    · have := hA1.le
+      rw [slice_ok (by omega) hb (hA2.bnd hs hb)]
+      simp
+      refine ⟨by omega, h2, by omega, ?_⟩
+      exact ⟨by simp; omega, hb, hA2.bnd hs hb⟩
+  · have := hA1.le; simp; omega
+
+theorem vspan_mk {s : Src} {a b : Nat} (h : a ≤ b) (ha : Bnd s a) (hb : Bnd s b) : VSpan s ⟨a, b⟩ := ⟨h, ha, hb⟩
+
+theorem isIdentifierStart_iff (s : Src) (p : Nat) : isIdentifierStart s p = true ↔ ∃ b, s[p]? = some b ∧ isAlpha b = true := by
+  unfold isIdentifierStart
+  split <;> simp_all
+
+/-- `get_identifier_unchecked`: the cursor is one past an ASCII letter -/
+theorem getIdentifierUnchecked_good {s : Src} (hs : AsciiThenBoundary s) (p : Nat) (b : UInt8)
+    (hb : s[p]? = some b) (ha : isAlpha b = true) :
+    Good s (p + 1) (getIdentifierUnchecked s (p + 1)) (fun sp q => sp = ⟨p, q⟩ ∧ VSpan s sp ∧ After s (p + 1) q) := by
+  have hasc : Asc s p := ⟨b, hb, isAlpha_lt b ha⟩
+  have hA := (After.step hasc).trans (scanWhile_after s isIdentByte isIdentByte_lt (p + 1))
+  have hA' := scanWhile_after s isIdentByte isIdentByte_lt (p + 1)
+  have h1 := hA'.le
+  have h2 := hA.le_size (by have := hasc.lt; omega)
+  unfold getIdentifierUnchecked
+  simp only [usub, show 1 ≤ p + 1 by omega, if_true, Nat.add_sub_cancel]
+  rw [slice_ok (by omega) hasc.bnd (hA.bnd hs hasc.bnd)]
+  exact (good_ok _ _ _ _ _).mpr ⟨h1, h2, rfl, vspan_mk (by omega) hasc.bnd (hA.bnd hs hasc.bnd), hA'⟩
+
+theorem getIdentifier_good {s : Src} (hs : AsciiThenBoundary s) (p : Nat) (hp : p ≤ s.size) :
+    Good s p (getIdentifier s p) (fun sp q => p < q ∧ sp = ⟨p, q⟩ ∧ VSpan s sp ∧ After s p q ∧ isIdentifierStart s p = true) := by
+  unfold getIdentifier
+  split
+  · simp [hp]
+  · rename_i h
+    have h : isIdentifierStart s p = true := by simpa using h
+    obtain ⟨b, hb, ha⟩ := (isIdentifierStart_iff s p).mp h
+    refine (getIdentifierUnchecked_good hs p b hb ha).mono (by omega) ?_
+    intro sp q h1 h2 ⟨h3, h4, h5⟩
+    exact ⟨by omega, h3, h4, (After.step ⟨b, hb, isAlpha_lt b ha⟩).trans h5, h⟩
+
+/-- on `err` at the start position nothing was an identifier start -/
+theorem getIdentifier_err_start {s : Src} {p : Nat} {e : PErr} {q : Nat} (h : getIdentifier s p = .err e q) :
+    q = p ∧ isIdentifierStart s p = false := by
+  unfold getIdentifier at h
+  split at h
+  · rename_i h1; simp at h; exact ⟨h.2.symm, by simpa using h1⟩
+  · unfold getIdentifierUnchecked at h
+    simp only [] at h
+    split at h
+    · simp at h
+    · split at h <;> simp at h
+
+theorem getAttributeAccessor_good {s : Src} (hs : AsciiThenBoundary s) (p : Nat) (hp : p ≤ s.size) :
+    Good s p (getAttributeAccessor s p) (fun o _ => ∀ sp, o = some sp → VSpan s sp) := by
+  unfold getAttributeAccessor
+  rcases takeByteIf_cases s p 46 with ⟨h, h'⟩ | ⟨h, _⟩ <;> rw [h] <;> simp only []
+  · have := get_lt h'
+    rcases (getIdentifier_good hs (p + 1) (by omega)).cases with ⟨sp, q, hr, h1, h2, h3, h4, h5, _⟩ | ⟨e, q, hr, h1, h2⟩ <;>
+      simp [hr]
+    · exact ⟨by omega, h2, h5⟩
+    · omega
+  · simp [hp]
+
+/-! ### nextBoundary, unicode escapes, string literals -/
+
+theorem nextBoundaryGo_spec (s : Src) (n i : Nat) (h : i + n = s.size) :
+    Bnd s (nextBoundaryGo s n i) ∧ i ≤ nextBoundaryGo s n i := by
+  induction n generalizing i with
+  | zero =>
+    simp only [nextBoundaryGo]
+    have : i = s.size := by omega
+    subst this; exact ⟨bnd_size s, Nat.le_refl _⟩
+  | succ n ih =>
+    simp only [nextBoundaryGo]
+    split
+    · rename_i hb; exact ⟨hb, Nat.le_refl _⟩
+    · have := ih (i + 1) (by omega)
+      exact ⟨this.1, by omega⟩
+
+theorem nextBoundary_spec (s : Src) (i : Nat) (h : i ≤ s.size) : Bnd s (nextBoundary s i) ∧ i ≤ nextBoundary s i :=
+  nextBoundaryGo_spec s _ i (by omega)
+
+theorem skipHexGo_after (s : Src) (n p : Nat) : After s p (skipHexGo s n p) := by
+  induction n generalizing p with
+  | zero => exact After.refl _ _
+  | succ n ih =>
+    simp only [skipHexGo]
+    split
+    · split
+      · rename_i b h hb
+        exact (After.step ⟨b, h, isHexDigit_lt b hb⟩).trans (ih _)
+      · exact After.refl _ _
+    · exact After.refl _ _
+
+theorem skipUnicodeEscapeSequence_good {s : Src} (hs : AsciiThenBoundary s) (p len : Nat) (hp : Bnd s p) :
+    Good s p (skipUnicodeEscapeSequence s p len) (fun _ _ => True) := by
+  have hA := skipHexGo_after s len p
+  have h1 := hA.le
+  have h2 := hA.le_size hp.le
+  unfold skipUnicodeEscapeSequence
+  simp only []
+  split
+  · have hstop : Bnd s (if skipHexGo s len p ≥ s.size then skipHexGo s len p else nextBoundary s (skipHexGo s len p + 1)) ∧
+        p ≤ (if skipHexGo s len p ≥ s.size then skipHexGo s len p else nextBoundary s (skipHexGo s len p + 1)) := by
+      split
+      · exact ⟨hA.bnd hs hp, h1⟩
+      · have := nextBoundary_spec s (skipHexGo s len p + 1) (by omega)
+        exact ⟨this.1, by omega⟩
+    rw [slice_ok hstop.2 hp hstop.1]
+    simp [h1, h2]
+  · simp [h1, h2]
+
+theorem scanStringGo_good {s : Src} (hs : AsciiThenBoundary s) (n p : Nat) (hp : p ≤ s.size) :
+    Good s p (scanStringGo s n p) (fun _ _ => True) := by
+  induction n generalizing p with
+  | zero => simp [scanStringGo, hp]
+  | succ n ih =>
+    simp only [scanStringGo]
+    split
+    · simp [hp]
+    · rename_i h0
+      have hlt := get_lt h0
+      split
+      · rename_i h1; have := get_lt h1
+        exact (ih (p + 2) (by omega)).mono (by omega) (fun _ _ _ _ _ => trivial)
+      · rename_i h1; have := get_lt h1
+        exact (ih (p + 2) (by omega)).mono (by omega) (fun _ _ _ _ _ => trivial)
+      · rename_i h1; have := get_lt h1
+        have hb : Bnd s (p + 2) := bnd_succ hs h1 (by decide)
+        rcases (skipUnicodeEscapeSequence_good hs (p + 2) 4 hb).cases with ⟨_, q, hr, h3, h4, _⟩ | ⟨e, q, hr, h3, h4⟩ <;>
+          simp only [hr]
+        · exact (ih q h4).mono (by omega) (fun _ _ _ _ _ => trivial)
+        · simp; omega
+      · rename_i h1; have := get_lt h1
+        have hb : Bnd s (p + 2) := bnd_succ hs h1 (by decide)
+        rcases (skipUnicodeEscapeSequence_good hs (p + 2) 6 hb).cases with ⟨_, q, hr, h3, h4, _⟩ | ⟨e, q, hr, h3, h4⟩ <;>
+          simp only [hr]
+        · exact (ih q h4).mono (by omega) (fun _ _ _ _ _ => trivial)
+        · simp; omega
+      · simp [hp]
+    · simp [hp]
+    · simp [hp]
+    · rename_i h0
+      have hlt := get_lt h0
+      exact (ih (p + 1) (by omega)).mono (by omega) (fun _ _ _ _ _ => trivial)
+
+theorem scanString_good {s : Src} (hs : AsciiThenBoundary s) (p : Nat) (hp : p ≤ s.size) :
+    Good s p (scanString s p) (fun _ _ => True) := scanStringGo_good hs _ p hp
+
+/-! ### memchr3, getTextSlice -/
+
+theorem memchr3Go_some {s : Src} {n p e : Nat} (h : memchr3Go s n p = some e) :
+    p ≤ e ∧ (s[e]? = some 10 ∨ s[e]? = some 123 ∨ s[e]? = some 125) := by
+  induction n generalizing p with
+  | zero => simp [memchr3Go] at h
+  | succ n ih =>
+    simp only [memchr3Go] at h
+    split at h
+    · simp at h
+    · rename_i b hb
+      split at h
+      · rename_i hc
+        simp at h; subst h
+        refine ⟨Nat.le_refl _, ?_⟩
+        simp only [Bool.or_eq_true, beq_iff_eq] at hc
+        rcases hc with (hc | hc) | hc <;> subst hc <;> simp [hb]
+      · have := ih h; exact ⟨by omega, this.2⟩
+
+/-- postcondition of `get_text_slice` started at `p` -/
+def TextSliceOk (s : Src) (p : Nat) (v : Nat × Nat × Bool × Termination) (q : Nat) : Prop :=
+  v.1 = p ∧ p ≤ v.2.1 ∧ Bnd s v.2.1 ∧ Bnd s q ∧ (p < q ∨ s[p]? = some 123) ∧
+    (v.2.2.2 = .lineFeed → 1 ≤ v.2.1 ∧ s[v.2.1 - 1]? = some 10)
+
+theorem getTextSlice_good {s : Src} (hs : AsciiThenBoundary s) (p : Nat) (hp : p < s.size) :
+    Good s p (getTextSlice s p) (TextSliceOk s p) := by
+  unfold getTextSlice
+  split
+  · omega
+  · split
+    · exact (good_ok _ _ _ _ _).mpr ⟨by omega, Nat.le_refl _, rfl, by simp only []; omega, bnd_size s, bnd_size s, Or.inl hp,
+        fun h => by simp at h⟩
+    · rename_i e he
+      have ⟨h1, h2⟩ := memchr3Go_some he
+      split
+      · rename_i h; have := get_lt h; simp; omega
+      · rename_i h; have := get_lt h
+        have hasc : Asc s e := ⟨10, h, by decide⟩
+        split
+        · rename_i hc
+          have h13 : s[e - 1]? = some 13 := by simpa using hc.2
+          exact (good_ok _ _ _ _ _).mpr ⟨h1, by omega, rfl, by simp only []; omega, bnd_of_ascii h13 (by decide), hasc.bnd,
+            Or.inl (by omega), fun h => by simp at h⟩
+        · exact (good_ok _ _ _ _ _).mpr ⟨by omega, by omega, rfl, by simp only []; omega, hasc.bnd_succ hs, hasc.bnd_succ hs,
+            Or.inl (by omega), fun _ => ⟨by simp only []; omega, by simpa using h⟩⟩
+      · rename_i h; have := get_lt h
+        have hasc : Asc s e := ⟨123, h, by decide⟩
+        refine (good_ok _ _ _ _ _).mpr ⟨h1, by omega, rfl, h1, hasc.bnd, hasc.bnd, ?_, fun h => by simp at h⟩
+        by_cases hpe : p < e
+        · exact Or.inl hpe
+        · have : e = p := by omega
+          subst this; exact Or.inr h
+      · rename_i n1 n2 n3
+        rcases h2 with h | h | h
+        · exact (n2 h).elim
+        · exact (n3 h).elim
+        · exact (n1 h).elim
+
+/-! ### trimEnd -/
+
+theorem trimEndGo_spec (s : Src) (start n e : Nat) (he : start ≤ e) (hb : Bnd s e) :
+    start ≤ trimEndGo s start n e ∧ trimEndGo s start n e ≤ e ∧ Bnd s (trimEndGo s start n e) := by
+  induction n generalizing e with
+  | zero => exact ⟨he, Nat.le_refl _, hb⟩
+  | succ n ih =>
+    simp only [trimEndGo]
+    split
+    · split
+      · rename_i b h
+        split
+        · rename_i hc
+          have hlt : b < 128 := by
+            simp only [Bool.or_eq_true, beq_iff_eq] at hc
+            rcases hc with (hc | hc) | hc <;> subst hc <;> decide
+          have := ih (e - 1) (by omega) (bnd_of_ascii h hlt)
+          exact ⟨this.1, by omega, this.2.2⟩
+        · exact ⟨he, Nat.le_refl _, hb⟩
+      · exact ⟨he, Nat.le_refl _, hb⟩
+    · exact ⟨he, Nat.le_refl _, hb⟩
+
+theorem trimEnd_vspan {s : Src} {sp : Span} (h : VSpan s sp) : VSpan s (trimEnd s sp) := by
+  have := trimEndGo_spec s sp.start (sp.stop - sp.start) sp.stop h.1 h.2.2
+  exact ⟨this.1, h.2.1, this.2.2⟩
+
+/-! ### junk recovery: skipToNextEntryStart -/
+
+theorem rposNewlineGo_some {s : Src} {a n b nl : Nat} (h : rposNewlineGo s a n b = some nl) : a ≤ nl ∧ nl < b := by
+  induction n generalizing b with
+  | zero => simp [rposNewlineGo] at h
+  | succ n ih =>
+    simp only [rposNewlineGo] at h
+    split at h
+    · split at h
+      · simp at h; omega
+      · have := ih h; omega
+    · simp at h
+
+def isEntryByte (b : UInt8) : Bool := isAlpha b || b == 45 || b == 35
+
+theorem isEntryByte_lt : ∀ b : UInt8, isEntryByte b = true → b < 128 := by
+  apply forall_uint8; decide +kernel
+
+theorem skipToNextEntryStartGo_spec (s : Src) (n p : Nat) (h : p + n = s.size) :
+    p ≤ skipToNextEntryStartGo s n p ∧ Bnd s (skipToNextEntryStartGo s n p) ∧
+      (skipToNextEntryStartGo s n p = p → p = s.size ∨ ∃ b, s[p]? = some b ∧ isEntryByte b = true) := by
+  induction n generalizing p with
+  | zero =>
+    simp only [skipToNextEntryStartGo]
+    have : p = s.size := by omega
+    subst this
+    exact ⟨Nat.le_refl _, bnd_size s, fun _ => Or.inl rfl⟩
+  | succ n ih =>
+    simp only [skipToNextEntryStartGo]
+    split
+    · rename_i h0
+      have : s.size ≤ p := by simpa using h0
+      omega
+    · rename_i b hb
+      split
+      · rename_i hc
+        have hc : isEntryByte b = true := by
+          simp only [Bool.and_eq_true] at hc
+          exact hc.2
+        exact ⟨Nat.le_refl _, bnd_of_ascii hb (isEntryByte_lt b hc), fun _ => Or.inr ⟨b, hb, hc⟩⟩
+      · have := ih (p + 1) (by omega)
+        exact ⟨by omega, this.2.1, fun h' => by omega⟩
+
+/-- junk recovery always succeeds, lands on a boundary and makes progress — provided the error
+position is inside `[entryStart, size]` and, when it *is* the entry start, the entry's first byte
+is not something `skip_to_next_entry_start` stops at. -/
+theorem skipToNextEntryStart_spec (s : Src) (entryStart q : Nat) (h1 : entryStart ≤ q) (h2 : q ≤ s.size)
+    (h3 : entryStart < s.size)
+    (h4 : q = entryStart → ∀ b, s[entryStart]? = some b → isEntryByte b = false) :
+    ∃ q1, skipToNextEntryStart s entryStart q = some q1 ∧ entryStart < q1 ∧ Bnd s q1 := by
+  unfold skipToNextEntryStart
+  have hmin : min q s.size = q := by omega
+  simp only [hmin, h1, if_true]
+  refine ⟨_, rfl, ?_⟩
+  split
+  · rename_i nl hnl
+    have := rposNewlineGo_some hnl
+    have := skipToNextEntryStartGo_spec s (s.size - (nl + 1)) (nl + 1) (by omega)
+    exact ⟨by omega, this.2.1⟩
+  · have hsp := skipToNextEntryStartGo_spec s (s.size - q) q (by omega)
+    refine ⟨?_, hsp.2.1⟩
+    by_cases hq : q = entryStart
+    · have h4 := h4 hq
+      subst hq
+      by_cases he : skipToNextEntryStartGo s (s.size - q) q = q
+      · rcases hsp.2.2 he with h | ⟨b, hb, hc⟩
+        · omega
+        · have := h4 b hb; simp [this] at hc
+      · omega
+    · omega
+
+/-! ### comments -/
+
+theorem isEol_cases {s : Src} {p : Nat} (h : isEol s p = true) :
+    s[p]? = none ∨ s[p]? = some 10 ∨ (s[p]? = some 13 ∧ s[p + 1]? = some 10) := by
+  unfold isEol at h
+  split at h
+  · rename_i h0; exact Or.inr (Or.inl h0)
+  · rename_i h0; exact Or.inr (Or.inr ⟨h0, by simpa using h⟩)
+  · rename_i h0; exact Or.inl h0
+  · simp at h
+
+theorem isEol_bnd {s : Src} {p : Nat} (h : isEol s p = true) (hp : p ≤ s.size) : Bnd s p := by
+  rcases isEol_cases h with h | h | ⟨h, _⟩
+  · have : s.size ≤ p := by simpa using h
+    have : p = s.size := by omega
+    subst this; exact bnd_size s
+  · exact bnd_of_ascii h (by decide)
+  · exact bnd_of_ascii h (by decide)
+
+/-- after an end of line has been seen, `skip_eol` either consumes it or we are at the end -/
+theorem isEol_skipEol {s : Src} {p : Nat} (h : isEol s p = true) :
+    (∃ q, skipEol s p = some q) ∨ (skipEol s p = none ∧ s.size ≤ p) := by
+  rcases isEol_cases h with h | h | ⟨h, h'⟩
+  · right; simp [skipEol, h]; simpa using h
+  · left; simp [skipEol, h]
+  · left; simp [skipEol, h, h']
+
+theorem commentLineEndGo_spec (s : Src) (n p : Nat) (h : p + n = s.size) :
+    p ≤ commentLineEndGo s n p ∧ commentLineEndGo s n p ≤ s.size ∧ isEol s (commentLineEndGo s n p) = true := by
+  induction n generalizing p with
+  | zero =>
+    simp only [commentLineEndGo]
+    refine ⟨Nat.le_refl _, by omega, ?_⟩
+    have : s[p]? = none := by simp; omega
+    simp [isEol, this]
+  | succ n ih =>
+    simp only [commentLineEndGo]
+    split
+    · rename_i hc; exact ⟨Nat.le_refl _, by omega, hc⟩
+    · have := ih (p + 1) (by omega)
+      exact ⟨by omega, this.2⟩
+
+theorem getCommentLine_good {s : Src} (p : Nat) (hp : Bnd s p) :
+    Good s p (getCommentLine s p) (fun sp q => VSpan s sp ∧ isEol s q = true) := by
+  have h := commentLineEndGo_spec s (s.size - p) p (by have := hp.le; omega)
+  unfold getCommentLine
+  simp only []
+  rw [slice_ok h.1 hp (isEol_bnd h.2.2 h.2.1)]
+  exact (good_ok _ _ _ _ _).mpr ⟨h.1, h.2.1, vspan_mk h.1 hp (isEol_bnd h.2.2 h.2.1), h.2.2⟩
+
+theorem getCommentLevel_cases (s : Src) (p : Nat) :
+    (getCommentLevel s p = (0, p) ∧ s[p]? ≠ some 35) ∨
+    (∃ l, 1 ≤ l ∧ l ≤ 3 ∧ getCommentLevel s p = (l, p + l) ∧ s[p]? = some 35 ∧ s[p + l - 1]? = some 35) := by
+  unfold getCommentLevel
+  simp only [isCurrentByte_iff]
+  split
+  · rename_i h0
+    right
+    split
+    · rename_i h1
+      split
+      · rename_i h2; exact ⟨3, by omega, by omega, rfl, h0, h2⟩
+      · exact ⟨2, by omega, by omega, rfl, h0, h1⟩
+    · exact ⟨1, by omega, by omega, rfl, h0, h0⟩
+  · rename_i h0; exact Or.inl ⟨rfl, h0⟩
+
+/-- loop invariant of `get_comment` (`start` = where the comment began) -/
+def CommentInv (s : Src) (start level : Nat) (content : List Span) (p : Nat) : Prop :=
+  (level = 0 ∧ content = [] ∧ p = start ∧ s[p]? = some 35) ∨
+  (1 ≤ level ∧ level ≤ 3 ∧ ((start + 2 ≤ p ∧ s[p - 1]? = some 10) ∨ (p = s.size ∧ start < p)))
+
+theorem getCommentGo_good {s : Src} (hs : AsciiThenBoundary s) (start n level : Nat) (content : List Span) (p : Nat)
+    (hp : p ≤ s.size) (hn : s.size - p + 1 ≤ n) (hb : Bnd s p) (hc : ∀ sp ∈ content, VSpan s sp)
+    (hinv : CommentInv s start level content p) :
+    Good s (start + 1) (getCommentGo s n level content p)
+      (fun r q => Bnd s q ∧ 1 ≤ r.2 ∧ r.2 ≤ 3 ∧ ∀ sp ∈ r.1, VSpan s sp) := by
+  induction n generalizing level content p with
+  | zero => omega
+  | succ n ih =>
+    simp only [getCommentGo]
+    split
+    · rename_i hlt
+      -- the recursive step, shared by the two `get_comment_line` arms
+      have step : ∀ l p2, 1 ≤ l → l ≤ 3 → p < p2 → p2 ≤ s.size → start < p2 → Bnd s p2 →
+          Good s (start + 1)
+            (match getCommentLine s p2 with
+             | .ok line q => getCommentGo s n l (content ++ [line]) ((skipEol s q).getD q)
+             | .err e q => .err e q
+             | .panic m => .panic m
+             | .fuel => .fuel)
+            (fun r q => Bnd s q ∧ 1 ≤ r.2 ∧ r.2 ≤ 3 ∧ ∀ sp ∈ r.1, VSpan s sp) := by
+        intro l p2 hl1 hl3 hpp2 hp2 hst hb2
+        rcases (getCommentLine_good p2 hb2).cases with ⟨line, q, hr, h1, h2, h3, h4⟩ | ⟨e, q, hr, h1, h2⟩ <;> simp only [hr]
+        · have hbq := isEol_bnd h4 h2
+          have hc' : ∀ sp ∈ content ++ [line], VSpan s sp := by
+            intro sp hsp
+            rcases List.mem_append.mp hsp with h | h
+            · exact hc sp h
+            · simp at h; subst h; exact h3
+          rcases isEol_skipEol h4 with ⟨q', hq'⟩ | ⟨hq', hsz⟩
+          · have ⟨e1, e2, e3⟩ := skipEol_some hq'
+            have hA := skipEol_after hq'
+            simp only [hq', Option.getD_some]
+            refine ih l _ q' (hA.le_size h2) (by omega) (hA.bnd hs hbq) hc' ?_
+            exact Or.inr ⟨hl1, hl3, Or.inl ⟨by omega, e2⟩⟩
+          · simp only [hq', Option.getD_none]
+            refine ih l _ q h2 (by omega) hbq hc' ?_
+            exact Or.inr ⟨hl1, hl3, Or.inr ⟨by omega, by omega⟩⟩
+        · simp; omega
+      rcases getCommentLevel_cases s p with ⟨hl, h35⟩ | ⟨l, hl1, hl3, hl, h35, h35'⟩ <;> rw [hl] <;> simp only []
+      · -- not a comment line: `ptr -= 1`
+        rcases hinv with ⟨_, _, _, h⟩ | ⟨i1, i2, ⟨i3, i4⟩ | ⟨i3, _⟩⟩
+        · exact (h35 h).elim
+        · simp only [beq_self_eq_true, if_true, usub, show 1 ≤ p by omega]
+          exact (good_ok _ _ _ _ _).mpr ⟨by omega, by omega, bnd_of_ascii i4 (by decide), i1, i2, hc⟩
+        · omega
+      · have hl0 : (l == 0) = false := by simp; omega
+        have hpl := get_lt h35'
+        simp only [hl0, Bool.false_eq_true, if_false]
+        split
+        · -- a comment of a different level: `ptr -= level`
+          rename_i hdiff
+          simp only [usub, Nat.le_add_left, if_true, Nat.add_sub_cancel]
+          rcases hinv with ⟨i0, _⟩ | ⟨i1, i2, i3⟩
+          · simp [i0] at hdiff
+          · exact (good_ok _ _ _ _ _).mpr ⟨by omega, hp, hb, i1, i2, hc⟩
+        · have hst : start < p + l := by
+            rcases hinv with ⟨_, _, i0, _⟩ | ⟨_, _, i3⟩ <;> omega
+          have hbl : Bnd s (p + l) := by
+            have := bnd_succ hs h35' (by decide)
+            rwa [show p + l - 1 + 1 = p + l by omega] at this
+          split
+          · rename_i heq
+            have heq : p + l = s.size := by simpa using heq
+            exact (good_ok _ _ _ _ _).mpr ⟨by omega, by omega, hbl, hl1, hl3, hc⟩
+          · split
+            · exact step l (p + l) hl1 hl3 (by omega) (by omega) hst hbl
+            · rcases (expectByte_good s (p + l) 32 (by omega)).cases with ⟨_, q, hr, h1, h2, h3, h4⟩ | ⟨e, q, hr, h1, h2⟩ <;>
+                simp only [hr]
+              · subst h3
+                exact step l (p + l + 1) hl1 hl3 (by omega) h2 (by omega) (bnd_succ hs h4 (by decide))
+              · split
+                · simp; omega
+                · rename_i hne
+                  simp only [usub, Nat.le_add_left, if_true, Nat.add_sub_cancel]
+                  rcases hinv with ⟨_, i0, _⟩ | ⟨i1, i2, i3⟩
+                  · simp [i0] at hne
+                  · exact (good_ok _ _ _ _ _).mpr ⟨by omega, hp, hb, hl1, hl3, hc⟩
+    · rcases hinv with ⟨_, _, _, h⟩ | ⟨i1, i2, i3⟩
+      · have := get_lt h; omega
+      · exact (good_ok _ _ _ _ _).mpr ⟨by omega, hp, hb, i1, i2, hc⟩
+
+theorem getComment_good {s : Src} (hs : AsciiThenBoundary s) (p : Nat) (h : s[p]? = some 35) :
+    Good s (p + 1) (getComment s p) (fun r q => Bnd s q ∧ 1 ≤ r.2 ∧ r.2 ≤ 3 ∧ ∀ sp ∈ r.1, VSpan s sp) := by
+  have := get_lt h
+  exact getCommentGo_good hs p _ 0 [] p (by omega) (Nat.le_refl _) (bnd_of_ascii h (by decide)) (by simp)
+    (Or.inl ⟨rfl, rfl, rfl, h⟩)
+
+/-- `skip_comment`: progress, and the cursor is a boundary unless it is `size + 1` -/
+theorem skipCommentGo_spec {s : Src} (hs : AsciiThenBoundary s) (n p : Nat) (hp : p ≤ s.size) (hb : Bnd s p) :
+    p ≤ skipCommentGo s n p ∧ skipCommentGo s n p ≤ s.size + 1 ∧ (1 ≤ n → p < skipCommentGo s n p) ∧
+      (skipCommentGo s n p ≤ s.size → Bnd s (skipCommentGo s n p)) := by
+  induction n generalizing p with
+  | zero => exact ⟨Nat.le_refl _, by simp only [skipCommentGo]; omega, by omega, fun _ => hb⟩
+  | succ n ih =>
+    simp only [skipCommentGo]
+    have h := commentLineEndGo_spec s (s.size - p) p (by omega)
+    generalize commentLineEndGo s (s.size - p) p = e at h
+    have hbe : e + 1 ≤ s.size → Bnd s (e + 1) := by
+      intro hle
+      rcases isEol_cases h.2.2 with h0 | h0 | ⟨h0, h1⟩
+      · have : s.size ≤ e := by simpa using h0
+        omega
+      · exact bnd_succ hs h0 (by decide)
+      · exact bnd_of_ascii h1 (by decide)
+    split
+    · rename_i hc
+      have hc := (isCurrentByte_iff _ _ _).mp hc
+      have := get_lt hc
+      have := ih (e + 1 + 1) (by omega) (bnd_succ hs hc (by decide))
+      exact ⟨by omega, this.2.1, fun _ => by omega, this.2.2.2⟩
+    · exact ⟨by omega, by omega, fun _ => by omega, hbe⟩
+
+theorem skipComment_spec {s : Src} (hs : AsciiThenBoundary s) (p : Nat) (hp : p ≤ s.size) (hb : Bnd s p) :
+    p < skipComment s p ∧ skipComment s p ≤ s.size + 1 ∧ (skipComment s p ≤ s.size → Bnd s (skipComment s p)) := by
+  have := skipCommentGo_spec hs (s.size - p + 1) p hp hb
+  exact ⟨this.2.2.1 (by omega), this.2.1, this.2.2.2⟩
+
+end FluentProofs.Parser
